@@ -237,10 +237,7 @@ def check(spec, tier, seed, replay=None):
     fail = None
     if okh and (broken or spec.get("always_monitor")):
         C.log("[%s] running the property monitor on the implementation" % pid)
-        fail = run_monitor(spec, tier, seed, bool(broken))
-    if fail and fail.get("known"):
-        known.append(fail)
-        fail = None
+        fail, known = run_monitor(spec, tier, seed, bool(broken))
     if broken or fail:
         body = "property: %s\ntier: %s\nseed: %s\nrepo: %s\n" % (pid, tier, seed, C.repo_tree_hash())
         for b in broken:
@@ -315,18 +312,13 @@ def load_known():
     return out
 
 
-def run_monitor(spec, tier, seed, escalate):
-    """Runs the Rust-side monitor of this property over simulated runs on the implementation
-    alone. Returns None or dict(args, reason, trace, known)."""
-    mon = spec.get("monitor")
-    if not mon:
-        return None
-    runs = {"quick": 150, "thorough": 1500}[tier] * (4 if escalate else 1)
-    rc, out = C.run([C.VH, "monitor", "--prop", mon, "--runs", str(runs), "--steps", "500", "--seed", str(seed)], timeout=3000)
+def parse_monitor(out):
+    """(fail or None, {ignored substring: count}) from `vharness monitor` output."""
     fail = None
+    ignored = {}
     lines = out.splitlines()
     for k, l in enumerate(lines):
-        if l.startswith("FAIL "):
+        if l.startswith("FAIL ") and fail is None:
             reason = ""
             trace = []
             for m in lines[k + 1:]:
@@ -335,9 +327,63 @@ def run_monitor(spec, tier, seed, escalate):
                 elif m.startswith("  "):
                     trace.append(m)
             fail = {"args": l[5:], "reason": reason, "trace": "\n".join(trace[-80:])}
-            break
-    if fail:
-        for kf in load_known():
-            if kf.get("property") == spec["id"] and kf.get("signature") and kf["signature"] in fail["reason"]:
-                fail["known"] = True
-    return fail
+        if l.startswith("IGNORED "):
+            p = l.split(None, 2)
+            if len(p) == 3:
+                ignored[p[2].strip()] = int(p[1])
+    return fail, ignored
+
+
+def sig_match(sig, reason):
+    return sig in reason or sig in reason.replace(" ", "_")
+
+
+def run_monitor(spec, tier, seed, escalate):
+    """Runs the Rust-side monitor of this property over simulated runs on the implementation
+    alone. Listed known findings of the property are passed as --ignore (so they do not mask
+    anything else); each one that is actually observed (in the search, or by its recorded
+    replay) is returned in `known`. Returns (fail or None, [known finding dicts])."""
+    mon = spec.get("monitor")
+    if not mon:
+        return None, []
+    mine = [kf for kf in load_known() if kf.get("property") == spec["id"] and kf.get("signature")]
+    runs = {"quick": 150, "thorough": 1500}[tier] * (4 if escalate else 1)
+    cmd = [C.VH, "monitor", "--prop", mon, "--runs", str(runs), "--steps", "500", "--seed", str(seed)]
+    if mine:
+        cmd += ["--ignore", ",".join(kf["signature"] for kf in mine)]
+    rc, out = C.run(cmd, timeout=3000)
+    fail, ignored = parse_monitor(out)
+    known = []
+    for kf in mine:
+        seen = sum(n for sub, n in ignored.items() if sub == kf["signature"] or sub.replace(" ", "_") == kf["signature"])
+        how = "seen %d times in %d simulated runs" % (seen, runs)
+        if not seen and kf.get("replay"):
+            # the recorded replay, with every OTHER known signature ignored
+            others = [o["signature"] for o in mine if o is not kf]
+            # replay arguments use '_' for spaces, but property names contain '_': restore them
+            rcmd = [C.VH, "monitor"] + fix_replay_args(kf["replay"]) + (["--ignore", ",".join(others)] if others else [])
+            rc2, out2 = C.run(rcmd, timeout=600)
+            f2, _ = parse_monitor(out2)
+            if f2 and sig_match(kf["signature"], f2["reason"]):
+                seen = 1
+                how = "reproduced by its recorded replay " + " ".join(fix_replay_args(kf["replay"]))
+        if seen:
+            known.append({"reason": "%s signature=%s (%s)" % (kf.get("site", ""), kf["signature"], how), "signature": kf["signature"]})
+    if fail and any(sig_match(kf["signature"], fail["reason"]) for kf in mine):
+        # belt and braces: a known signature that slipped through --ignore is not a new violation
+        if not any(k["signature"] for k in known if sig_match(k["signature"], fail["reason"])):
+            known.append({"reason": fail["reason"][:300], "signature": ""})
+        fail = None
+    return fail, known
+
+
+def fix_replay_args(r):
+    """'--prop_no_panic_--seed_1_--run_9' -> ['--prop','no_panic','--seed','1','--run','9']"""
+    out = []
+    for part in r.split("_--"):
+        part = part if part.startswith("--") else "--" + part
+        k, _, v = part.partition("_")
+        out.append(k)
+        if v:
+            out.append(v)
+    return out
